@@ -105,6 +105,7 @@ namespace ratio
     inline std::unordered_set<flaw *> flush_pending_flaws() { return std::move(pending_flaws); }
 
     void next();
+    bool decide_pending_atoms(); // decides the still unassigned arithmetic atoms according to the current values, returns whether any decision has been taken..
 
     bool propagate(const smt::lit &p) override;
     bool check() override;
